@@ -1440,12 +1440,15 @@ class System:
         if mod.source_path is None:
             assert mod._py_string is not None
         if mod._is_c_module:
-            self.processing_modules.append(mod.fullName())
+            # The name might change while processing: the module, or a package above it, 
+            # can be moved by a re-export.
+            fullName = mod.fullName()
+            self.processing_modules.append(fullName)
             self.msg("processModule", "processing %s"%(self.processing_modules), 1)
             self._introspectThing(mod._py_mod, mod, mod)
             mod.state = ProcessingState.PROCESSED
             head = self.processing_modules.pop()
-            assert head == mod.fullName()
+            assert head == fullName
         else:
             builder = self.defaultBuilder(self)
             if mod._py_string is not None:
@@ -1454,13 +1457,16 @@ class System:
                 assert mod.source_path is not None
                 ast = builder.parseFile(mod.source_path, mod)
             if ast:
-                self.processing_modules.append(mod.fullName())
+                # The name might change while processing: the module, or a package above it, 
+                # can be moved by a re-export.
+                fullName = mod.fullName()
+                self.processing_modules.append(fullName)
                 if mod._py_string is None:
                     self.msg("processModule", "processing %s"%(self.processing_modules), 1)
                 builder.processModuleAST(ast, mod)
                 mod.state = ProcessingState.PROCESSED
                 head = self.processing_modules.pop()
-                assert head == mod.fullName()
+                assert head == fullName
         self.progress(
             'process',
             self.module_count - len(self.unprocessed_modules),
